@@ -50,11 +50,12 @@ class AnsiSetting:
     '''
     def __init__(self, setting:Union[str, int, List[int], Tuple[int], 'AnsiSetting']):
         if isinstance(setting, list) or isinstance(setting, tuple):
-            setting = ansi_sep.join([str(s) for s in setting])
+            # Integers are written in decimal (str() of a bool or of an int subclass may be something else)
+            setting = ansi_sep.join([format(s, 'd') if isinstance(s, int) else str(s) for s in setting])
         elif isinstance(setting, AnsiSetting):
             setting = str(setting)
         elif isinstance(setting, int):
-            setting = str(setting)
+            setting = format(setting, 'd')
         elif not isinstance(setting, str):
             raise TypeError('Unsupported type for setting: {}'.format(type(setting)))
 
